@@ -40,7 +40,7 @@ type c11Case struct {
 	Len       int    `json:"len"`
 	Tail      int    `json:"tail"` // 0 non-zero, 1 one zero byte, 2 two, 3 sixteen
 	Fill      string `json:"fill"`
-	KeyCfg    string `json:"key_cfg,omitempty"` // ValidateEncodedResponse: field | setter | both-same | both-different
+	KeyCfg    string `json:"key_cfg,omitempty"` // ValidateEncodedResponse: field | setter | both-same | both-different | field-custom
 	Signed    string `json:"signed,omitempty"`  // "response" | "assertion"
 	// EncMask (ValidateEncodedResponse level, 0 = one assertion, encrypted): a Response with two
 	// assertions of which the first (1), the second (2) or both (3) are encrypted
@@ -106,6 +106,8 @@ func c11Exec(c c11Case) (keys []string, detail, class string) {
 	toKey := "KS"
 	switch c.KeyCfg {
 	case "field":
+	case "field-custom":
+		conf.PlainStores = true // a key store type of the deployment's own in the SPKeyStore field
 	case "setter":
 		conf.EncField, conf.EncSetter = "-", "KS"
 	case "both-same":
@@ -241,7 +243,7 @@ func c11Cases(thorough bool) (cases []c11Case, n1 int) {
 		c := c11Case{Level: "ValidateEncodedResponse"}
 		c.DataAlg = ch.Choose("dataalg", 5)
 		c.Transport = ch.Choose("transport", 9)
-		c.KeyCfg = []string{"field", "setter", "both-same", "both-different"}[ch.Choose("keycfg", 4)]
+		c.KeyCfg = []string{"field", "setter", "both-same", "both-different", "field-custom"}[ch.Choose("keycfg", 5)]
 		c.Signed = []string{"assertion", "response"}[ch.Choose("signed", 2)]
 		c.Placement = []string{"", "detached"}[ch.Choose("placement", 2)]
 		for res := 0; res < 16; res++ {
@@ -267,7 +269,7 @@ func c11Cases(thorough bool) (cases []c11Case, n1 int) {
 }
 
 func c11Run(r *mc.Run) {
-	r.Rule = "DecryptBytes level: full product data algorithm(5) x key transport/digest(9: OAEP-MGF1P and OAEP 1.1 with digest absent/sha1/sha256/sha512, RSA 1.5) x EncryptedKey placement(2) x recipient certificate(2) x plaintext length 0..48 x tail(4: non-zero, 1, 2, 16 zero bytes) x CBC pad fill(3: zero, PKCS#7, 0xff), oracle = an independent XML-Enc encryptor (idp/enc.go): decrypted bytes = plaintext exactly; ValidateEncodedResponse level: 45 combinations x 16 residues mod 16 x placement(2) x signing(2) x 4 key configurations (field, setter, both same, both different), plus Responses with two assertions of which the first, the second or both are encrypted (2 algorithms x 2 key configurations x 2 signing placements), oracle = plaintext twin (same outcome, same data in the same order, same summary). non-trivial = decryption reached the symmetric step; distinct = distinct case"
+	r.Rule = "DecryptBytes level: full product data algorithm(5) x key transport/digest(9: OAEP-MGF1P and OAEP 1.1 with digest absent/sha1/sha256/sha512, RSA 1.5) x EncryptedKey placement(2) x recipient certificate(2) x plaintext length 0..48 x tail(4: non-zero, 1, 2, 16 zero bytes) x CBC pad fill(3: zero, PKCS#7, 0xff), oracle = an independent XML-Enc encryptor (idp/enc.go): decrypted bytes = plaintext exactly; ValidateEncodedResponse level: 45 combinations x 16 residues mod 16 x placement(2) x signing(2) x 5 key configurations (field, setter, both same, both different, field holding a key store of a custom type), plus Responses with two assertions of which the first, the second or both are encrypted (2 algorithms x 2 key configurations x 2 signing placements), oracle = plaintext twin (same outcome, same data in the same order, same summary). non-trivial = decryption reached the symmetric step; distinct = distinct case"
 	r.Assume("for non-default OAEP digests MGF1 uses the same hash (the reading under which the library's exported identifiers interoperate with itself)")
 	cases, n1 := c11Cases(r.Thorough())
 	r.Set("decryptbytes_cases", n1)
